@@ -8,6 +8,7 @@ import (
 	"encoding/binary"
 	"encoding/json"
 	"fmt"
+	"github.com/attestantio/dirk/services/locker"
 	"os"
 	"os/exec"
 	"runtime"
@@ -80,6 +81,9 @@ type CScenario struct {
 	// Bound (if > 0) replaces the check's preemption bound for this scenario and rules out the unbounded pass
 	// (scenarios with hundreds of scheduling points).
 	Bound int `json:"bound,omitempty"`
+	// WarmKeys: before the requests arrive the instance has served requests for this many other keys (its locker has
+	// taken and released a lock for each of them).
+	WarmKeys int `json:"warm_keys,omitempty"`
 }
 
 // keyRange returns the key indices lo..hi-1.
@@ -404,6 +408,7 @@ func (e *concEnv) mkScenario(cs CScenario, lockOnly bool, wantLinearizable bool)
 			panic(err)
 		}
 		keys := e.freshKeys(nkeys, cs.DescKeys)
+		warmLocker(lk, cs.WarmKeys)
 		var calls []*callRec
 		var bodies []func(s *sched.Sched)
 		type reqCtx struct {
@@ -846,6 +851,7 @@ func concRaceBodies(scs []CScenario) error {
 				return err
 			}
 			keys := e.freshKeys(nkeys, cs.DescKeys)
+			warmLocker(lk, cs.WarmKeys)
 			type reqCtx struct {
 				ctx    context.Context
 				cancel context.CancelFunc
@@ -890,4 +896,19 @@ func concRaceBodies(scs []CScenario) error {
 		}
 	}
 	return nil
+}
+
+// warmLocker makes the locker serve n other keys first (outside the scheduler: nobody else is running yet).
+func warmLocker(lk locker.Service, n int) {
+	for i := 0; i < n; i++ {
+		var k [48]byte
+		k[0] = 0x5a
+		binary.BigEndian.PutUint32(k[1:5], uint32(i))
+		h := sha256.Sum256(k[:5])
+		copy(k[5:], h[:])
+		lk.PreLock()
+		lk.Lock(k)
+		lk.PostLock()
+		lk.Unlock(k)
+	}
 }
